@@ -122,9 +122,9 @@ def run(ctx):
             "footprint_sizes": {k: len(v) for k, v in a["fp"].items()}, "overlaps": a.get("overlaps", []),
             "explorer_attribute_names": a.get("explorer_attribute_names"),
         }
-    if len(aliases) != 5:
+    if len(aliases) != 7:
         ctx.oblige("alias:translator_ran_for_all_families", False, "got %d alias lines" % len(aliases))
-        ctx.broken.append("alias translator did not report all five annealer/model configurations")
+        ctx.broken.append("alias translator did not report all seven annealer/model configurations")
     sites = astfacts[0]["global_write_sites"] if astfacts else ["<ast translator did not run>"]
     body = g.HEADER + "Open Scope string_scope.\n"
     body += "(* AST fact: call sites of os.Chdir / os.Setenv / os.Unsetenv / os.Clearenv in non-test code *)\n"
